@@ -44,6 +44,7 @@ type Item struct {
 	HB    int    `json:"hb,omitempty"` // step: 0 = API thread, k+1 = heartbeat writer k
 	Api   string `json:"api,omitempty"`
 	Stale bool   `json:"stale,omitempty"`
+	Age   int    `json:"age,omitempty"` // step on a Stat: logical age (ms) of the time stamp presented; 0 with Stale = one hour
 	// macros (expanded into steps while running; the executed steps are what is recorded and replayed):
 	// K = "until": step C's API thread until it is blocked at operation Op on Class (the Skip+1-th time), without executing it;
 	// K = "finish": step C's API thread until its call returns.  Stale = verdict given to every Stat on the way (when allowed).
@@ -58,6 +59,7 @@ type Scenario struct {
 	Ovr     []bool `json:"ovr"`
 	Items   []Item `json:"items"`
 	NoParent bool  `json:"noparent,omitempty"` // the directory the lock lives in does not exist (oracle only, no Coq case)
+	Short   bool   `json:"short,omitempty"` // the generator may issue LockWithTimeout calls whose deadline fires
 	Atomic  bool   `json:"atomic,omitempty"` // generate under the atomic-release restriction (no Mkdir of another contender succeeds inside a release window)
 	Seed    int64  `json:"seed,omitempty"` // >0: items are generated online from this seed (MaxItems of them)
 	Max     int    `json:"max,omitempty"`
@@ -80,6 +82,7 @@ type Outcome struct {
 	Bad     bool
 	Fails   []fail
 	Stuck   string
+	Unreliable string // the wall clock interfered with a logical age / a deadline: the scenario is discarded
 	Invalid string // an item of a fixed schedule was not executable (replay of a foreign tree)
 	Zombies int    // heartbeat writers that came back although their lock object's cancel store had been cancelled
 	Acq     int    // successful acquires
@@ -89,7 +92,17 @@ type Outcome struct {
 
 var apis = []string{"TryLock", "Lock", "LockWithTimeout", "Unlock"}
 
+// LockWithTimeout with a deadline that fires during the scenario (item "deadline")
+const shortAPI = "LockWithTimeoutShort"
+const shortT = 400 * time.Millisecond
+
+// the library's staleness threshold in ms (2 heartbeat periods, strict): an age is stale iff age > staleMs
+const staleMs = 100
+
 func apiCode(a string) int {
+	if a == shortAPI {
+		return 2
+	}
 	for i, x := range apis {
 		if x == a {
 			return i
@@ -196,6 +209,9 @@ type contender struct {
 	relGen  int  // Unlock call: the generation this contender is releasing
 	rmOwn   bool // Unlock call: it has itself removed that generation
 	judged  int  // acquire call: generation present at its latest stale verdict (-2 none)
+	callStart time.Time
+	expired bool // the deadline of the LockWithTimeoutShort call in progress has fired (item "deadline" executed)
+	nShort  int
 	win     bool // release window of the call in progress is open (Unlock, or a stale time stamp read, no own Mkdir since)
 	hbDoneAt []time.Time
 	hbPC    []int  // per heartbeat writer: 0 at OpenFile, 1 at Chtimes, 2 done
@@ -282,6 +298,12 @@ func (e *engine) avail() (calls, steps, hbs, kills []Item) {
 			for _, a := range apis[:3] {
 				calls = append(calls, Item{K: "call", C: c, Api: a})
 			}
+			if e.sc.Short && x.nShort < 2 {
+				calls = append(calls, Item{K: "call", C: c, Api: shortAPI})
+			}
+		}
+		if x.inCall && x.api == shortAPI && !x.expired {
+			calls = append(calls, Item{K: "deadline", C: c})
 		}
 		for k, pc := range x.hbPC {
 			if pc != 2 {
@@ -337,6 +359,10 @@ func (e *engine) exec(it Item) bool {
 			x.eng = -1
 		}
 		x.judged = -2
+		x.callStart, x.expired = time.Now(), false
+		if it.Api == shortAPI {
+			x.nShort++
+		}
 		x.win = it.Api == "Unlock"
 		x.inCall, x.api, x.mkThis = true, it.Api, false
 		x.ret.Store(nil)
@@ -352,6 +378,8 @@ func (e *engine) exec(it Item) bool {
 				err = x.lock.Lock(e.ctx)
 			case "LockWithTimeout":
 				err = x.lock.LockWithTimeout(e.ctx, time.Hour)
+			case shortAPI:
+				err = x.lock.LockWithTimeout(e.ctx, shortT)
 			default:
 				err = x.lock.Unlock(e.ctx)
 			}
@@ -374,6 +402,15 @@ func (e *engine) exec(it Item) bool {
 			e.finishCall(it.C, nil)
 		}
 		return true
+	case "deadline":
+		if !x.inCall || x.api != shortAPI {
+			e.out.Invalid = "deadline not enabled"
+			return false
+		}
+		if x.expired {
+			return true // already inserted by the engine
+		}
+		return e.deadline(it.C)
 	case "until", "finish":
 		skip := it.Skip
 		for n := 0; n < 1500; n++ {
@@ -395,7 +432,7 @@ func (e *engine) exec(it Item) bool {
 				}
 				skip--
 			}
-			if !e.stepMain(Item{K: "step", C: it.C, Stale: it.Stale && !e.liveOwner() && e.curGen >= 0}) {
+			if !e.stepMain(Item{K: "step", C: it.C, Stale: it.Stale && !e.liveOwner() && e.curGen >= 0, Age: it.Age}) {
 				return false
 			}
 		}
@@ -428,7 +465,7 @@ func (e *engine) stepHb(it Item) bool {
 		e.out.Stuck = "heartbeat writer not pending"
 		return false
 	}
-	res := e.s.Release(p, false)
+	res := e.s.Release(p, 0)
 	o := &StepObs{Op: opCode(p.Op, p.Class, p.N), Res: resCode(res)}
 	it.Stale = false
 	e.out.Items = append(e.out.Items, it)
@@ -454,6 +491,20 @@ func (e *engine) stepHb(it Item) bool {
 	return true
 }
 
+// deadline lets the deadline of c's LockWithTimeoutShort call fire: the API thread is blocked at a backend operation, the
+// engine sleeps until the real deadline has passed; from then on the call is an expired one (model: LockWTX).
+func (e *engine) deadline(c int) bool {
+	x := e.cs[c]
+	if d := shortT + 40*time.Millisecond - time.Since(x.callStart); d > 0 {
+		time.Sleep(d)
+	}
+	x.expired = true
+	e.out.Items = append(e.out.Items, Item{K: "deadline", C: c})
+	e.out.Obs = append(e.out.Obs, nil)
+	e.out.Kinds["deadline"]++
+	return true
+}
+
 func (e *engine) stepMain(it Item) bool {
 	c := it.C
 	x := e.cs[c]
@@ -461,19 +512,34 @@ func (e *engine) stepMain(it Item) bool {
 		e.out.Invalid = "step outside a call"
 		return false
 	}
+	if x.api == shortAPI && !x.expired && time.Since(x.callStart) > shortT-150*time.Millisecond {
+		// the schedule has not fired the deadline yet and the real one is approaching (or has passed while the thread was
+		// blocked at its backend operation, where nothing can be observed): fire it now, so that what the call does never
+		// depends on the wall clock
+		if !e.deadline(c) {
+			return false
+		}
+	}
 	p, _ := e.s.WaitPending(lsched.Main(c), e.returned(c), waitT)
 	if p == nil {
 		e.out.Stuck = "API thread neither pending nor returned"
 		return false
 	}
-	stale := it.Stale && p.Op == "Stat"
-	if stale && e.liveOwner() {
-		// the staleness oracle never judges a live holder's generation stale (the property's proviso)
-		e.out.Invalid = "stale verdict on a live holder"
-		stale = false
+	age := 0
+	if p.Op == "Stat" {
+		age = it.Age
+		if age == 0 && it.Stale {
+			age = 3600000
+		}
 	}
-	it.Stale = stale
-	res := e.s.Release(p, stale)
+	if age > staleMs && e.liveOwner() {
+		// "as long as the holder's heartbeat keeps running": a live holder's time stamps are never older than two periods
+		e.out.Invalid = "stale age on a live holder"
+		age = 0
+	}
+	stale := age > staleMs
+	it.Stale, it.Age = stale, age
+	res := e.s.Release(p, time.Duration(age)*time.Millisecond)
 	if stale && (res == "isdir" || res == "isfile") {
 		x.judged = e.curGen
 		x.win = true
@@ -522,6 +588,16 @@ func (e *engine) stepMain(it Item) bool {
 	e.out.Items = append(e.out.Items, it)
 	e.out.Obs = append(e.out.Obs, o)
 	q, ok := e.s.WaitPending(lsched.Main(c), e.returned(c), waitT)
+	if x.api == shortAPI && !x.expired && time.Since(x.callStart) > shortT-5*time.Millisecond {
+		e.out.Unreliable = "the real deadline came too close during a step (stall of > 145 ms)"
+	}
+	if p.Op == "Stat" && !stale && !p.StatAt.IsZero() {
+		// the library computes time.Since(ModTime) a little later than the wrapper's "now": if that delay could have
+		// carried a fresh age over the threshold the outcome depended on the wall clock
+		if time.Duration(age)*time.Millisecond+time.Since(p.StatAt) >= (staleMs+1)*time.Millisecond {
+			e.out.Unreliable = fmt.Sprintf("age %d ms + scheduling delay reached the staleness threshold", age)
+		}
+	}
 	if q == nil && !ok {
 		e.out.Stuck = "API thread lost after " + p.Op
 		return false
@@ -541,6 +617,9 @@ func (e *engine) finishCall(c int, o *StepObs) bool {
 	}
 	x.inCall = false
 	x.win = false
+	if x.api == shortAPI && !x.expired && rc == 4 {
+		e.out.Unreliable = "the real deadline fired before the schedule's"
+	}
 	e.out.Kinds[fmt.Sprintf("ret:%s:%d", x.api, rc)]++
 	if x.api == "Unlock" {
 		if rc == 1 {
@@ -697,8 +776,16 @@ func (e *engine) generate(rng *rand.Rand, max int) {
 		}
 		if it.K == "step" && it.HB == 0 {
 			cur = it.C
-			if p := e.s.Peek(lsched.Main(it.C)); p != nil && p.Op == "Stat" && e.curGen >= 0 && !e.liveOwner() {
-				it.Stale = rng.Intn(100) < 70
+			if p := e.s.Peek(lsched.Main(it.C)); p != nil && p.Op == "Stat" && e.curGen >= 0 {
+				// logical age of the time stamp: a live holder's is at most two periods old; around every threshold the
+				// code could use (99 and 100 ms only in the deterministic scenarios: they are the most clock-sensitive)
+				fresh := []int{0, 0, 0, 5, 10, 11, 19, 20, 21, 30, 49, 50, 51, 75}
+				old := []int{101, 110, 150, 199, 200, 201, 500, 3600000, 3600000, 3600000}
+				if e.liveOwner() || rng.Intn(100) < 35 {
+					it.Age = fresh[rng.Intn(len(fresh))]
+				} else {
+					it.Age = old[rng.Intn(len(old))]
+				}
 			}
 		} else if it.K == "call" {
 			cur = it.C
@@ -748,6 +835,8 @@ func coqCase(sc *Scenario, o *Outcome) string {
 			fmt.Fprintf(&b, "C_ %d %d", it.C, apiCode(it.Api))
 		case "kill":
 			fmt.Fprintf(&b, "K_ %d", it.C)
+		case "deadline":
+			fmt.Fprintf(&b, "D_ %d", it.C)
 		default:
 			st := 0
 			if it.Stale {
@@ -792,6 +881,8 @@ func untilN(c int, op, class string, skip int, st bool) Item {
 	return Item{K: "until", C: c, Op: op, Class: class, Skip: skip, Stale: st}
 }
 func fin(c int, st bool) Item { return Item{K: "finish", C: c, Stale: st} }
+func finAge(c, age int) Item  { return Item{K: "finish", C: c, Age: age} }
+func deadline(c int) Item     { return Item{K: "deadline", C: c} }
 
 // K1 (DESIGN D19): A holds and unlocks; after A's rmdir, B acquires; A's post-removal existence check sees B's
 // directory, A retries Rm and destroys B's lock; C acquires while B holds.
@@ -903,6 +994,55 @@ func corners() []*Scenario {
 				call(0, "TryLock"), fin(0, false), call(0, "Lock"), fin(0, false), call(1, "LockWithTimeout"), fin(1, false))})
 		}
 	}
+	// ---- deadlines: a LockWithTimeout that times out performs no mutating operation on the lock path; the live holder's
+	// directory and heartbeat file stay, a third contender still gets "locked"
+	fff := []bool{false, false, false}
+	for _, ov := range [][]bool{fff, {false, true, true}} {
+		add("timeout-live-holder", ov, call(0, "TryLock"), fin(0, false), hb(0, 0), hb(0, 0),
+			call(1, shortAPI), untilN(1, "Mkdir", "dir", 1, false), deadline(1), fin(1, false),
+			call(2, "TryLock"), fin(2, false), hb(0, 0), hb(0, 0), call(0, "Unlock"), fin(0, false), call(2, "TryLock"), fin(2, false))
+		// the holder has not written its first heartbeat yet (empty lock directory)
+		add("timeout-live-holder-no-hb-yet", ov, call(0, "Lock"), fin(0, false),
+			call(1, shortAPI), step(1), step(1), step(1), deadline(1), fin(1, false), call(2, "TryLock"), fin(2, false))
+	}
+	add("timeout-before-first-op", fff, call(0, "TryLock"), fin(0, false), call(1, shortAPI), deadline(1), fin(1, false),
+		call(2, "Lock"), untilN(2, "Mkdir", "dir", 1, false), call(0, "Unlock"), fin(0, false), fin(2, false))
+	// the deadline fires between the Mkdir that succeeds and the return: "timeout" is reported, the directory stays behind
+	add("timeout-at-acquire", fff, call(1, shortAPI), step(1), deadline(1), fin(1, false), call(2, "TryLock"), fin(2, false),
+		call(0, "LockWithTimeout"), untilN(0, "Mkdir", "dir", 1, false))
+	add("timeout-free-lock", fff, call(1, shortAPI), deadline(1), fin(1, false), call(2, "TryLock"), fin(2, false))
+
+	// ---- logical ages around every threshold the code could use (heartbeat period 50 ms, poll 10 ms; stale iff > 100 ms)
+	// live holder parked before its first heartbeat write (empty lock directory) / with its heartbeat file: never stale
+	for _, withHb := range []bool{false, true} {
+		tag := "live-empty-dir-aged"
+		pre := one(call(0, "TryLock"), fin(0, false))
+		if withHb {
+			tag = "live-hb-file-aged"
+			pre = append(pre, hb(0, 0), hb(0, 0))
+		}
+		items := append([]Item{}, pre...)
+		for _, d := range []int{1, 9, 10, 11, 19, 20, 21, 25, 40, 49, 50, 51, 60, 75} {
+			items = append(items, call(1, "TryLock"), finAge(1, d))
+		}
+		items = append(items, call(2, "Lock"), untilN(2, "Mkdir", "dir", 0, false), Item{K: "until", C: 2, Op: "Mkdir", Class: "dir", Skip: 1, Age: 45})
+		add(tag, []bool{false, true, true}, items...)
+		for _, d := range []int{90, 99, 100} { // the most clock-sensitive ones on their own (discarded when the machine stalls)
+			add(fmt.Sprintf("%s:%d", tag, d), []bool{false, true, false}, append(append([]Item{}, pre...),
+				call(1, "TryLock"), finAge(1, d), call(2, "TryLock"), finAge(2, d))...)
+		}
+		// dead holder: stale exactly from 101 ms on
+		dtag := "dead-empty-dir-aged"
+		if withHb {
+			dtag = "dead-hb-file-aged"
+		}
+		for _, d := range []int{100, 101, 102, 150, 199, 200, 201} {
+			add(fmt.Sprintf("%s:%d", dtag, d), []bool{false, true, false}, append(append([]Item{}, pre...), kill(0),
+				call(2, "TryLock"), finAge(2, d), // no override: "stale lock" from 101 ms on, "locked" before
+				call(1, "TryLock"), finAge(1, d), // override: taken over from 101 ms on
+				call(2, "TryLock"), finAge(2, 0))...)
+		}
+	}
 	// four contenders in turn
 	add("four", []bool{false, true, false, true}, call(0, "Lock"), fin(0, false), call(1, "TryLock"), fin(1, false),
 		call(2, "LockWithTimeout"), untilN(2, "Mkdir", "dir", 1, false), call(0, "Unlock"), fin(0, false), fin(2, false),
@@ -944,7 +1084,7 @@ func runAll(jobs []*job, runRoot string, par int, budget time.Duration) (skipped
 }
 
 func replayOf(sc *Scenario, o *Outcome) *Scenario {
-	return &Scenario{Tag: sc.Tag, Backend: sc.Backend, Ovr: sc.Ovr, Items: o.Items, NoParent: sc.NoParent, Atomic: sc.Atomic}
+	return &Scenario{Tag: sc.Tag, Backend: sc.Backend, Ovr: sc.Ovr, Items: o.Items, NoParent: sc.NoParent, Atomic: sc.Atomic, Short: sc.Short}
 }
 
 func main() {
@@ -974,6 +1114,12 @@ func main() {
 		sort.Strings(keys)
 		for _, k := range keys {
 			r.CountN("obs:"+k, o.Kinds[k])
+		}
+		if o.Unreliable != "" {
+			// the wall clock interfered (stall of the machine): nothing of this scenario is used
+			r.Count("timing-unreliable-discarded")
+			r.Note("scenario " + sc.Tag + " discarded: " + o.Unreliable)
+			return
 		}
 		for _, f := range o.Fails {
 			sig := f.Sig
@@ -1053,7 +1199,8 @@ func main() {
 		if atomic {
 			tag = "random-atomic"
 		}
-		jobs = append(jobs, &job{sc: &Scenario{Tag: fmt.Sprintf("%s:%d", tag, i), Backend: b, Ovr: ovr, Atomic: atomic, Seed: 1 + r.Rng.Int63n(1<<40), Max: 200 + r.Rng.Intn(250)}})
+		short := r.Rng.Intn(100) < 20
+		jobs = append(jobs, &job{sc: &Scenario{Tag: fmt.Sprintf("%s:%d", tag, i), Backend: b, Ovr: ovr, Atomic: atomic, Short: short, Seed: 1 + r.Rng.Int63n(1<<40), Max: 200 + r.Rng.Intn(250)}})
 	}
 	budget := 100 * time.Second
 	if r.Thorough() || r.Deep {
